@@ -207,6 +207,7 @@ PROFILES = {
                'p_clean': 0.0, 'p_vers': 0.0, 'raise': 8, 'kinds': ['list_dir', 'walk', 'list_dir', 'is_file', 'read']},
     'refuse': {'refuse': True},
     'keys': {'keys': True},
+    'nested': {'nested': True},
     'threads': {'threads': True},
     'straggler': {'straggler': True},
     # C17: calls on builders whose function has ended (sequentially: inside later code of the build and after build returns)
@@ -508,8 +509,74 @@ def make_straggler(seed, profile):
     return {'id': '%s-%d' % (profile, seed), 'cache': ['k'], 'universe': [], 'threads': True, 'prog': progs, 'steps': steps}
 
 
+def make_nested(seed, profile):
+    """Structured three-level programs (top subbuild/build_file -> mid build_files -> leaf build_files that
+    succeed or raise and are caught), with directory queries placed after nested calls; rebuilt unchanged
+    (and after single mutations), optionally cleaned.  Targets the replay overlay / directory bookkeeping."""
+    rnd = random.Random('nested:%s' % seed)
+    leaves = [list(p) for p in LEAVES + [['d', 'e', 'w'], ['g', 'h', 'v'], ['d', 'u']]]
+    rnd.shuffle(leaves)
+    dirs = [['d'], ['d', 'e'], ['g'], ['g', 'h'], []]
+    prog = {'leafW': [{'s': 'write', 'c': 'c1', 'sz': 4}, {'s': 'return'}],
+            'leafR': [{'s': 'write', 'c': 'c2', 'sz': 4}, {'s': 'raise'}],
+            'leafR0': [{'s': 'raise'}]}
+
+    def dq():
+        return {'s': 'q', 'kind': rnd.choice(['is_dir', 'exists', 'list_dir', 'walk', 'list_dir']), 'p': rnd.choice(dirs),
+                'td': rnd.random() < 0.5}
+    used = []
+
+    def target():
+        t = leaves[len(used) % len(leaves)]
+        used.append(t)
+        return t
+    for m in range(2):
+        body = []
+        for _ in range(rnd.randrange(1, 3)):
+            body.append({'s': 'bf', 'p': target(), 'f': rnd.choice(['leafW', 'leafR', 'leafR0']), 'args': [len(used)],
+                         'cmp': rnd.choice(['METADATA', 'HASH']), 'catch': True})
+            if rnd.random() < 0.6:
+                body.append(dq())
+        body.insert(rnd.randrange(len(body) + 1), {'s': 'write', 'c': 'c3', 'sz': 4})
+        if rnd.random() < 0.5:
+            body.append(dq())
+        body.append({'s': 'raise'} if rnd.random() < 0.15 else {'s': 'return'})
+        prog['mid%d' % m] = body
+    top = []
+    for m in range(2):
+        if rnd.random() < 0.85:
+            top.append({'s': 'bf', 'p': target(), 'f': 'mid%d' % m, 'args': [m], 'cmp': rnd.choice(['METADATA', 'HASH']),
+                        'catch': True})
+            if rnd.random() < 0.7:
+                top.append(dq())
+    if rnd.random() < 0.5:
+        top.append({'s': 'bf', 'p': target(), 'f': rnd.choice(['leafW', 'leafR']), 'args': [9], 'catch': True})
+    top.append(dq())
+    top.append({'s': 'return'})
+    prog['top'] = top
+    root = [{'s': rnd.choice(['sb', 'sb', 'bf']), 'f': 'top', 'args': [0], 'catch': True, 'p': target(), 'cmp': 'HASH'}]
+    if root[0]['s'] == 'bf':
+        prog['top'] = [{'s': 'write', 'c': 'c1', 'sz': 6}] + top
+    root.append({'s': 'return'})
+    steps = []
+    for _ in range(rnd.choice([0, 0, 1])):
+        steps.append({'op': 'ext', 'do': rnd.choice(['mkdir', 'mkdir', 'write']), 'p': rnd.choice([['d'], ['g'], ['d', 'e']]),
+                      'c': 'c9', 'sz': 4})
+    for b in range(rnd.choice([3, 3, 4])):
+        steps.append({'op': 'build', 'name': 'B', 'vers': {}, 'root': [dict(st) for st in root]})
+        if b and rnd.random() < 0.25:
+            t = rnd.choice(used)
+            steps.append(rnd.choice([{'op': 'ext', 'do': 'delete', 'p': t}, {'op': 'ext', 'do': 'write', 'p': t, 'c': 'c8', 'sz': 4},
+                                     {'op': 'ext', 'do': 'write', 'p': ['d', 'fz'], 'c': 'c8', 'sz': 4}]))
+    if rnd.random() < 0.5:
+        steps.append({'op': 'clean', 'name': 'B'})
+    return {'id': '%s-%d' % (profile, seed), 'cache': ['k'], 'universe': UNIVERSE, 'prog': prog, 'steps': steps}
+
+
 def make_scenario(seed, profile='general'):
     P = PROFILES[profile]
+    if P.get('nested'):
+        return make_nested(seed, profile)
     if P.get('straggler'):
         return make_straggler(seed, profile)
     if P.get('threads'):
